@@ -13,6 +13,8 @@ package sub
 //@   immutable: s p
 //@
 //@ struct context
+//@   close_token closeQ when closed
+//@   close_token sizeQ
 //@   guarded_by s.Mutex: recvQLen recvQ sizeQ recvExpire closed subs
 //@   immutable: closeQ s
 //@
